@@ -265,6 +265,9 @@ def split(jobs):
     return {sign: list(group) for sign, group in groupby(sorted(jobs, key=by_sign), key=by_sign)}
 def split2(jobs):
     return [(k, list(g)) for k, g in groupby(sorted(jobs, key=lambda j: j.name), key=lambda j: j.name)]
+def per_pattern(patterns, jobs):
+    flows = ((up, job) for up in patterns for job in jobs if up in job.usage_patterns)
+    return {up: [job for _, job in g] for up, g in groupby(flows, key=itemgetter(0))}
 '''
 
 
@@ -290,6 +293,24 @@ def unsorted_groupbys(tree):
         if isinstance(src, ast.Call) and _callee(src) == "sorted":
             skey = next((k.value for k in src.keywords if k.arg == "key"), None)
             ok = (key is None and skey is None) or (key is not None and skey is not None and norm(key) == norm(skey))
+        if not ok and isinstance(src, (ast.GeneratorExp, ast.ListComp)) and src.generators \
+                and isinstance(src.generators[0].target, ast.Name):
+            # pairs produced key by key — `((k, x) for k in K for x in … if …)` grouped by the component the outer loop
+            # binds: the items of one key are produced one after the other
+            outer = src.generators[0].target.id
+            comp = None
+            if key is None:
+                comp = src.elt
+            elif isinstance(key, ast.Call) and _callee(key) == "itemgetter" and len(key.args) == 1 \
+                    and isinstance(key.args[0], ast.Constant) and isinstance(key.args[0].value, int) \
+                    and isinstance(src.elt, ast.Tuple) and 0 <= key.args[0].value < len(src.elt.elts):
+                comp = src.elt.elts[key.args[0].value]
+            elif isinstance(key, ast.Lambda) and len(key.args.args) == 1 and isinstance(key.body, ast.Subscript) \
+                    and isinstance(key.body.value, ast.Name) and key.body.value.id == key.args.args[0].arg \
+                    and isinstance(key.body.slice, ast.Constant) and isinstance(key.body.slice.value, int) \
+                    and isinstance(src.elt, ast.Tuple) and 0 <= key.body.slice.value < len(src.elt.elts):
+                comp = src.elt.elts[key.body.slice.value]
+            ok = isinstance(comp, ast.Name) and comp.id == outer
         if not ok:
             out.append((c, key))
     return out
